@@ -156,6 +156,34 @@ def check_r4(ctx, db, config, A):
     # older live blocks, which then appear in no slice (client contract shared with C01.R10)
     from . import clients
     clients.check(ctx, config, 'R8')
+    # ---- R9 'most recently acquired chunk first': iteration starts at current_chunk_footer and follows prev, so the order is right
+    # only if every chunk that is acquired becomes the head and links the head it replaces (C01.R7: the list head moves only to a chunk
+    # created in the same call, whose prev is the old head). A chunk linked *behind* the current one is iterated out of order.
+    from . import c01 as _c01
+    n9 = 0
+    for key, v in A.items():
+        if v is None:
+            continue
+        n9 += len([e for e in v[1].events if e.kind == 'store' and arena.bump_field(e) and arena.bump_field(e)[1] == 'current_chunk_footer'])
+        _c01.check_ccf_stores(ctx, key, v[0], v[1], 'R9')
+    # ... and every chunk acquired on a shared-borrow path is installed as the head: a fresh footer that is written but never
+    # stored into current_chunk_footer (linked somewhere behind) is reported
+    for key, v in A.items():
+        if v is None:
+            continue
+        I, res, body = v
+        aggs = [(e, arena.footer_agg(e)) for e in res.events if e.kind == 'store' and arena.footer_agg(e)]
+        heads = [e for e in res.events if e.kind == 'store' and arena.bump_field(e) and arena.bump_field(e)[1] == 'current_chunk_footer']
+        for e, (addr, agg) in aggs:
+            ins = ((I.bodies.get(arena.owner_fn(I, e)) or {}).get('meta', {}).get('inputs') or [])
+            if not any('Bump<' in x or x.endswith('Bump') for x in ins) and len(e.stack) == 1:
+                continue        # a constructor's first chunk is a field of the arena it returns
+            installed = any(addr in subterms(h.val) or addr == h.val for h in heads)
+            # the head store must not be conditional on anything but the success of the acquisition: it post-dominates via R9 above;
+            # here: is there a head store at all that takes this chunk
+            if heads and not installed:
+                ctx.violation('R9', arena.short(arena.innermost(e)), 'fresh-chunk-not-head', 'a chunk created via %s is never installed as current_chunk_footer: it is linked behind the current chunk and iterated out of order' % key, e.span)
+    ctx.floor('R9', n9, 12, 'stores to current_chunk_footer over the entry points')
 
 
 def bump_exact(I, P0, x, facts, old, L):
